@@ -12,8 +12,8 @@ out = f"/verif/seeded/{sid}"
 os.makedirs(out, exist_ok=True)
 shutil.copy(f"{sd}/patch.diff", f"{out}/patch.diff")
 demo = open(f"{sd}/demo.py").read()
-demo = re.sub(r"/tmp/seed[23456]?/C\d\d/_seed", "/tmp", demo)
-demo = re.sub(r"/tmp/seed[23456]?/C\d\d", "<scratch copy of the repository>", demo)
+demo = re.sub(r"/tmp/seed[234567]?/C\d\d/_seed", "/tmp", demo)
+demo = re.sub(r"/tmp/seed[234567]?/C\d\d", "<scratch copy of the repository>", demo)
 open(f"{out}/demo.py", "w").write(demo)
 if os.path.exists(f"{sd}/notes.md"):
     shutil.copy(f"{sd}/notes.md", f"{out}/notes.md")
